@@ -107,7 +107,11 @@ func (call *CallStm) checkMappings(global *Ast, pipeline *Pipeline) error {
 	if err == nil && call.Mapping != nil {
 		switch call.Mapping.(type) {
 		case *placeholderMapSource, *placeholderArrayMapSource, *placeholderMapMapSource:
-			panic(call.Mapping)
+			// This happens if the call is mapped over the output of another
+			// mapped call for which the mapping could not be resolved.
+			return global.err(call,
+				"MapCallError: could not resolve what call %s is mapped over.",
+				call.Id)
 		}
 	}
 	// Check all sources are consistent.  checkBindingMap will have merged them.
